@@ -30,6 +30,17 @@ def oob_program():
                 ("log", U64, ("var", "guard"))]
     return g
 
+DEAD_KEY = "dead-trapping-arithmetic-eliminated"
+
+def dead_trap_program():
+    """canonical program of the known finding: an unused `%` by a run-time zero does not revert"""
+    g = fraggen.Gen(random.Random(0), "dead_canon", viol=0.0)
+    U64 = fraggen.U64
+    g.p.main = [("let", "d", False, U64, g.hide(g.lit(64, 0), U64)),
+                ("let", "v", False, U64, ("bin", "Mod", 64, g.lit(64, 7), ("var", "d"))),
+                ("log", U64, g.lit(64, 1))]
+    return g
+
 def tgen(ctx):
     try:
         return facts_c01.generate(REPO, os.path.join(coq.COQ, "Generated", "C01Facts.v"))
@@ -162,11 +173,16 @@ def minimise(ctx, g, profile, budget_s):
         return j[0][0] in (1, 2)
     return shrink.shrink(g.p, pred, batch=8, max_rounds=25, log=ctx.log)
 
-def run_generated(ctx, npk, nprog, stats, save=True):
+def run_generated(ctx, npk, nprog, stats, save=True, search=False):
     base = os.path.join(ctx.work, "pkgs")
     pkgs = pipeline.all_packages(ctx.seed, npk, nprog, ctx.tier)
+    if search:
+        # the proof / T-gen broke: look for a failing input over every boundary split and identity/trap pair
+        pkgs += pipeline.search_packages()
+        stats["search_packages"] = True
     canon = oob_program()
     pkgs.append(("gcanon", [canon]))
+    pkgs.append(("gdead", [dead_trap_program()]))
     dirs = pipeline.write_packages(base, pkgs)
     t0 = time.time()
     tmo = 600 if ctx.quick else 1800
@@ -212,8 +228,12 @@ def decide(ctx, good, canon, stats):
                           "the reference semantics cannot evaluate a generated program (%s): generator/Frag defect" % nm, no_input=True)
             continue
         # VM and reference semantics disagree
+        if g.p.name == "dead_canon":
+            ctx.violation(DEAD_KEY, {"program": src, "profile": prof, "observed": {"revert": o[0], "logs": o[1]}, "prescribed": {"revert": erv, "logs": elogs}},
+                          "an unused `7 % d` with d = 0 at run time is deleted by the compiler and does not revert")
+            continue
         small = g.p
-        if stats.get("minimised", 0) < (1 if ctx.quick else 6):
+        if stats.get("minimised", 0) < (1 if ctx.quick else 6) and len(g.p.main) > 3:
             try:
                 small = minimise(ctx, g, prof, 120 if ctx.quick else 900)
                 stats["minimised"] = stats.get("minimised", 0) + 1
@@ -222,9 +242,11 @@ def decide(ctx, good, canon, stats):
         ssrc = small.sway()
         key = "vm-vs-reference-%s-%s" % (nm, hashlib.sha256(ssrc.encode()).hexdigest()[:10])
         ctx.violation(key, {"program": ssrc, "original_program": src if ssrc != src else None, "profile": prof,
+                            "operands": getattr(g, "meta", None),
                             "observed": {"revert": o[0], "logs": o[1]}, "prescribed": {"revert": erv, "logs": elogs},
                             "coq_program": small.coq()[:6000]},
-                      "compiled program (%s) and reference semantics disagree: %s; observed revert=%s, prescribed revert=%s" % (prof, nm, o[0], erv))
+                      "compiled program (%s) and reference semantics disagree: %s; observed revert=%s, prescribed revert=%s%s"
+                      % (prof, nm, o[0], erv, (" [op=%(op)s width=%(width)s a=%(a)s b=%(b)s]" % g.meta) if getattr(g, "meta", None) and "a" in g.meta else ""))
     return hist
 
 # ------------------------------------------------------------------------------------------- e2e corpus
@@ -325,7 +347,7 @@ def run(ctx):
     th = threading.Thread(target=lambda: e2e_box.append(run_e2e(ctx, 6 if ctx.quick else 150, stats)))
     th.start()
     if judge_ok:
-        good, canon = run_generated(ctx, npk, nprog, stats)
+        good, canon = run_generated(ctx, npk, nprog, stats, search=(not ok or facts is None))
         hist = decide(ctx, good, canon, stats)
     else:
         ctx.violation("judge-missing", {}, "C01/Judge.vo could not be built: programs cannot be judged", no_input=True)
